@@ -260,6 +260,12 @@ func H_Load() {
 		vAssert(err != nil, "C09.no_call_no_nil")
 		return
 	}
+	// the call that decides: the last seccomp call made
+	for i, r := range vSysTrace {
+		if r.trap == kNRSeccompAMD64 {
+			iSeccomp = i
+		}
+	}
 	s := vSysTrace[iSeccomp]
 	attached := vAnd(vAnd(s.a[0] == kSetModeFilter, s.errno == 0), s.r1 == 0)
 	vObsBool("attached", attached)
@@ -271,6 +277,15 @@ func H_Load() {
 	vKnownNil(s)
 	vAssert(vImplies(err == nil, attached), "C09.nil_attached")
 	vAssert(vImplies(attached, err == nil), "C09.attached_nil")
+	// "... and, when thread-sync was requested, for every thread": the attaching call carried TSYNC
+	vAssert(vImplies(vAnd(err == nil, flag&kFlagTSync != 0), s.a[1]&kFlagTSync != 0), "C09.tsync_honoured")
+	// an earlier seccomp call that attached a filter must not be followed by an error (a filter left behind)
+	for i, r := range vSysTrace {
+		if r.trap == kNRSeccompAMD64 && i != iSeccomp {
+			early := vAnd(vAnd(r.a[0] == kSetModeFilter, r.errno == 0), r.r1 == 0)
+			vAssert(vImplies(early, err == nil), "C09.no_filter_left_behind")
+		}
+	}
 	vReach(vAnd(s.errno == 0, s.r1 != 0), "cover.tsync_refused")
 	vReach(s.errno == kEACCES, "cover.eacces")
 	vReach(s.errno == kEINVAL, "cover.einval")
